@@ -272,6 +272,33 @@ def classify(step):
     return 'alloc', (m.group(1) if m else d)
 
 
+def classify_all(step):
+    """every relation that fails at this step, as [(kind, detail)], the first being classify(step)"""
+    out = [classify(step)]
+    if step['panic']:
+        return out
+    d = step['detail']
+    def add(k, x):
+        if k not in [a for a, _ in out]:
+            out.append((k, x))
+    if step['nwf']:
+        m = re.search(r'wf=(\S+)', d)
+        add('wf', m.group(1) if m else d)
+    if step['nabs']:
+        m = re.search(r'abs=(\S+)', d)
+        add('abs', m.group(1) if m else d)
+    if not step.get('trace', 1):
+        m = re.search(r'trace=(\S+)', d)
+        add('trace', m.group(1) if m else d)
+    if not step['alloc']:
+        m = re.search(r'alloc=(\S+)', d)
+        if m and m.group(1).startswith('cache:'):
+            add('cache', m.group(1))
+        else:
+            add('alloc', m.group(1) if m else d)
+    return out
+
+
 def read_ops(path):
     hdr, ops = {}, []
     for line in open(path):
